@@ -272,6 +272,21 @@ def exhaustive_layouts():
 FIXED_PROB = {"title": "fixed problem of the exhaustive layout sub-space", "message": None}
 
 
+def load_corpus():
+    """corpus/C11/*.json: replay payloads of recorded findings and repaired defects"""
+    import glob
+    import json
+    import os
+
+    from vlib.core import VERIF
+
+    out = []
+    for f in sorted(glob.glob(os.path.join(VERIF, "corpus", "C11", "*.json"))):
+        with open(f) as fh:
+            out.append(json.load(fh)["case"])
+    return out
+
+
 # --------------------------------------------------------------------------- the check
 def run(chk):
     k = chk.pick(4, 24)
@@ -301,6 +316,11 @@ def run(chk):
     nprob = chk.pick(150, 1500)
     jobs = []  # (problem index, problem, layout)
     probs = []
+    # the corpus of minimised past failures runs first (negative problem indices)
+    for ci, stored in enumerate(load_corpus()):
+        jobs.append((-1 - ci, stored["problem"], stored["canonical_layout"]))
+        jobs.append((-1 - ci, stored["problem"], stored["layout"]))
+    ncorpus = len(jobs) // 2
     for i in range(nprob):
         limit = 128 if rng.random() < 0.8 else 80
         prob = rl.gen_problem(rng, rich=True)
@@ -318,7 +338,7 @@ def run(chk):
     jobs.append((fixed_idx, FIXED_PROB, base))
     for lay in exh:
         jobs.append((fixed_idx, FIXED_PROB, lay))
-    chk.units["U-reader"] = {"problems": nprob, "layouts_per_problem": k + 1, "exhaustive_single_feature_layouts": len(exh)}
+    chk.units["U-reader"] = {"corpus": ncorpus, "problems": nprob, "layouts_per_problem": k + 1, "exhaustive_single_feature_layouts": len(exh)}
     chk.exhaustive = False
 
     obs = pmap(observe_layout, [(p, l) for _, p, l in jobs], workers=WORKERS, chunksize=4)
